@@ -11,8 +11,11 @@ They only override public hooks, the way ``SimplifiedMeteredOnRamp`` itself is b
 Import only after ``vf.env.setup()`` (so that ``sym_metanet`` is the tree under observation).
 Module-level classes: instances can be copied and pickled.
 """
+from functools import cached_property
+
 import sym_metanet as M
 from sym_metanet.engines.core import get_current_engine
+from sym_metanet.util.funcs import invalidate_cache
 
 
 class BoundaryOrigin(M.Origin):
@@ -147,6 +150,16 @@ class Motorway(M.Network):
     def __init__(self, name=None, operator="-"):
         super().__init__(name)
         self.operator = operator
+
+    # a lookup of its own, kept fresh with the library's own decorator on an overridden construction call that forwards
+    # to the parent (whose own lookups must be refreshed by the parent's decorator all the same)
+    @cached_property
+    def ramps(self):
+        return [o for o in self.origins if isinstance(o, M.MeteredOnRamp)]
+
+    @invalidate_cache(ramps)
+    def add_origin(self, origin, node):
+        return super().add_origin(origin, node)
 
 
 class TollPlaza(M.MainstreamOrigin):
@@ -311,3 +324,18 @@ class QuietMainstream(M.MainstreamOrigin):
 class CountingOrigin(M.Origin):
     def __len__(self):
         return 0
+
+
+class OffRampNode(M.Node):
+    """A user-defined NODE kind with its own node rule (the public hook `get_upstream_speed_and_flow`): an unmodelled exit
+    at the node takes the share `beta_off` of the flow every leaving link would receive."""
+
+    _vf_user = True
+
+    def __init__(self, name=None, beta_off=0.2):
+        super().__init__(name)
+        self.beta_off = beta_off
+
+    def get_upstream_speed_and_flow(self, net, link, engine=None, **kwargs):
+        v, q = super().get_upstream_speed_and_flow(net, link, engine=engine, **kwargs)
+        return v, (1.0 - self.beta_off) * q
